@@ -80,12 +80,9 @@ func (g *schemaGenerator) generateReferencedType(t *schemas.Type) (codegen.Type,
 	}
 
 	if t.Ref == "#" {
-		if schemaOutput, ok := g.outputs[g.schema.ID]; ok {
-			if decl, ok := schemaOutput.declsBySchema[t]; ok {
-				if decl != nil {
-					return decl.Type, nil
-				}
-			}
+		root := (*schemas.Type)(g.schema.ObjectAsType)
+		if decl, ok := g.output.declsBySchema[root]; ok && decl != nil {
+			return codegen.WrapTypeInPointer(&codegen.NamedType{Decl: decl}), nil
 		}
 
 		return codegen.EmptyInterfaceType{}, nil
